@@ -320,6 +320,11 @@ def judge(impl, name, args, prev_ths, limit=30, off=0):
             except Exception as e:  # noqa
                 r["expand"] = "none:" + type(e).__name__
                 r["verdict"] = "no-expansion"
+                if th_eval is not None and macro.level != 0 and isinstance(e, AssertionError) and "export: atom" in str(e):
+                    # get_proof_term did produce its proof term -- one of the premises, unchanged -- but it cannot be
+                    # turned into proof lines: the checker cannot expand this step although eval reports a result
+                    r["verdict"] = "expansion-is-bare-premise"
+                    r["detail"] = "get_proof_term returns a cited premise unchanged; ProofTerm.export refuses it (export: atom)"
                 return r
             # every citation must be one of the premises given to THIS call or an earlier line of the expansion
             given = set(i.id for i in ids)
@@ -1206,7 +1211,7 @@ class Oracle:
 
     def stat(self, name):
         return self.stats.setdefault(name, {"inputs": 0, "eval_ok": 0, "expand_ok": 0, "compared": 0, "agree": 0,
-                                            "harvest": 0, "mutation": 0, "generated": 0, "nested": 0, "findings": {}})
+                                            "harvest": 0, "mutation": 0, "generated": 0, "nested": 0, "directed": 0, "findings": {}})
 
     def run_one(self, name, args, ths, origin, src, depth=0, history=False):
         """Judge one input (deduplicated, unless it is a step of a history); returns the result dict
@@ -1240,11 +1245,15 @@ class Oracle:
             st["eval_ok"] += 1
             if r["expand"] == "ok":
                 st["eval_ok_expansion"] = st.get("eval_ok_expansion", 0) + 1
-            elif r["verdict"] == "no-expansion":
+                if src == "directed":
+                    st["directed_eval_ok_expansion"] = st.get("directed_eval_ok_expansion", 0) + 1
+            elif r["verdict"] in ("no-expansion", "expansion-is-bare-premise"):
                 st["eval_ok_no_expansion"] = st.get("eval_ok_no_expansion", 0) + 1
-                size = obj_size(args) + obj_size(list(ths))
-                if name not in self.unexpanded or size < self.unexpanded[name][0]:
-                    self.unexpanded[name] = (size, name, args, list(ths), r, origin, self.impl.cur)
+                if src == "directed":
+                    st["directed_eval_ok_no_expansion"] = st.get("directed_eval_ok_no_expansion", 0) + 1
+                    size = obj_size(args) + obj_size(list(ths))
+                    if name not in self.unexpanded or size < self.unexpanded[name][0]:
+                        self.unexpanded[name] = (size, name, args, list(ths), r, origin, self.impl.cur)
         if r["expand"] == "ok":
             st["expand_ok"] += 1
         if r["check"] == "ok" and r["eval"] == "ok":
@@ -1396,12 +1405,14 @@ class Oracle:
             mc = self.impl.theory.global_macros.get(name)
             if mc is None or mc.level == 0:
                 continue
-            if st.get("eval_ok_no_expansion", 0) >= 5 and st.get("eval_ok_expansion", 0) == 0:
+            # judged on the directed (seed-independent) inputs only: the same verdict for every VERIF_SEED
+            nno, nyes = st.get("directed_eval_ok_no_expansion", 0), st.get("directed_eval_ok_expansion", 0)
+            if nno >= 3 and nyes == 0:
                 r = dict(ent[4])
                 r["verdict"] = "expansion-never-produced"
-                r["detail"] = "eval succeeds on %d inputs; no expansion on any of them (%s)" % (st["eval_ok_no_expansion"], ent[4]["expand"])
+                r["detail"] = "eval succeeds on %d directed inputs; no expansion on any of them (%s)" % (nno, ent[4]["expand"])
                 self.found["%s:expansion-never-produced" % name] = (ent[0], name, ent[2], ent[3], r, ent[5], ent[6])
-                st["findings"]["expansion-never-produced"] = st["eval_ok_no_expansion"]
+                st["findings"]["expansion-never-produced"] = nno
         for key in sorted(self.found):
             size, name, args, ths, r, origin, cur = self.found[key]
             verdict = r["verdict"]
@@ -1451,6 +1462,8 @@ def describe(name, args, ths, r):
         return base + "eval %s; the expansion is produced but the checker rejects it at check_level=0 (%s)" % (r["eval"], r["check"])
     if v.startswith("expansion-cites-foreign-line"):
         return base + "eval %s; the expansion cites a line that is not among the premises given to the macro (%s)" % (r["eval"], r["detail"])
+    if v.startswith("expansion-is-bare-premise"):
+        return base + "eval reports %s; %s" % (safe_str(r.get("th_eval"))[:200], r["detail"])
     if v.startswith("expansion-never-produced"):
         return base + "eval reports %s but no expansion is produced, here or on any other input on which eval succeeds (%s)" % (
             safe_str(r.get("th_eval"))[:200], r["detail"])
@@ -1605,6 +1618,7 @@ def run(ctx):
     mut = Mutator(ctx.rng("mutate"))
     # corpus first
     run_corpus(ctx, impl, oracle)
+    directed_sweep(ctx, impl, oracle)
     # (a)+(b) harvested inputs and their mutations
     impl.basic.load_metadata()
     if ctx.tier == "quick":
@@ -2425,6 +2439,148 @@ def cond_rewrite_stream(ctx, impl, oracle):
     ctx.log("generators cond-rewrite: %d conditional rewrite theorems, %d inputs in %.1fs; findings so far: %d" % (len(rules), n, time.time() - t0, len(oracle.found)))
 
 
+# ------------------------------------------------------------------ directed sweep (independent of VERIF_SEED)
+def identity_cases(impl):
+    """Inputs on which a macro has nothing to do (its result is one of its premises unchanged)."""
+    from kernel.term import Var, Eq, Or, Not, Forall
+    from kernel.type import BoolType, NatType, TFun
+    from kernel.thm import Thm
+    A, B = Var("A", BoolType), Var("B", BoolType)
+    x = Var("x", NatType)
+    P = Var("P", TFun(NatType, BoolType))
+    H = Var("H1", BoolType)
+    out = []
+    for hyps in ((), (H,)):
+        out += [("beta_norm", None, [Thm(P(x), hyps)]), ("beta_norm", None, [Thm(Or(A, B), hyps)]),
+                ("verit_or", (A, B), [Thm(Or(A, B), hyps)]), ("verit_or", (A,), [Thm(A, hyps)]),
+                ("verit_bfun_elim", (Forall(x, P(x)),), [Thm(Forall(x, P(x)), hyps)]),
+                ("verit_bfun_elim", (Or(A, Not(B)),), [Thm(Or(A, Not(B)), hyps)]),
+                ("intros", None, [Thm(A, hyps)]),
+                ("apply_fact_for", [], [Thm(A, hyps)]),
+                ("forall_elim_gen", x, [Thm(Forall(x, P(x)), hyps)])]
+    return out
+
+
+def context_variants(args):
+    """veriT rules that take the binder context of their subproof (a dict name -> term as last argument): the same
+    call with contexts that EXCHANGE names (x -> y becomes x -> y, y -> x), and with identity entries added."""
+    from kernel.term import Var
+    if not (isinstance(args, tuple) and args and isinstance(args[-1], dict)):
+        return []
+    ctxt = args[-1]
+    out = []
+    sym = dict(ctxt)
+    for k, v in ctxt.items():
+        try:
+            if v.is_var() and v.name not in sym and v.name != k:
+                sym[v.name] = Var(k, v.T)
+        except Exception:  # noqa
+            pass
+    if sym != ctxt:
+        out.append(("ctx-exchange", args[:-1] + (sym,)))
+    ident = dict(ctxt)
+    for k, v in ctxt.items():
+        try:
+            for w in v.get_vars():
+                if w.name not in ident:
+                    ident[w.name] = w
+        except Exception:  # noqa
+            pass
+    if ident != ctxt:
+        out.append(("ctx-identity", args[:-1] + (ident,)))
+    return out
+
+
+def refl_context_cases():
+    from kernel.term import Var, Eq
+    from kernel.type import NatType
+    x, y, z = Var("x", NatType), Var("y", NatType), Var("z", NatType)
+    exch = {"x": y, "y": x}
+    return [("verit_refl", (Eq(x, y), exch), []), ("verit_refl", (Eq(y, x), exch), []),
+            ("verit_refl", (Eq(x, y), {"x": y}), []), ("verit_refl", (Eq(y, x), {"x": y}), []),
+            ("verit_refl", (Eq(x, y), {"x": y, "y": x, "z": z}), []), ("verit_refl", (Eq(z, z), {"z": z}), []),
+            ("verit_refl", (Eq(x, y), {"y": x}), [])]
+
+
+def directed_sweep(ctx, impl, oracle):
+    """A FIXED set of inputs (the generators below run on a constant random seed, not on VERIF_SEED) for every macro
+    that has a generator: the judgement `expansion-never-produced` is made on these inputs only, so that it is the
+    same for every seed.  Run before all other streams (no input can have been seen before)."""
+    import importlib
+    import io
+    import contextlib
+    import random
+    import time
+    t0 = time.time()
+    fixed = random.Random(40404)
+    n = 0
+    for fam, thy, meth, _, _ in sorted(GEN_FAMILIES, key=lambda f: f[1]):
+        try:
+            load_state(impl, thy, None)
+        except Exception:  # noqa
+            continue
+        G = FamGen(fixed)
+        for i in range(40):
+            try:
+                cases = getattr(G, meth)()
+            except Exception:  # noqa
+                continue
+            for (name, args, ths) in cases:
+                try:
+                    if name not in impl.theory.global_macros or not impl.theory.has_macro(name):
+                        continue
+                except AttributeError:
+                    continue
+                oracle.run_one(name, args, ths, {"kind": "directed", "family": fam, "index": i}, "directed")
+                n += 1
+    try:
+        load_state(impl, "hoare", None)
+        for k, (name, args, ths) in enumerate(identity_cases(impl)):
+            if name in impl.theory.global_macros and name.startswith("verit_") is False:
+                oracle.run_one(name, args, ths, {"kind": "directed", "family": "identity", "index": k}, "directed")
+                n += 1
+    except Exception as e:  # noqa
+        ctx.log("directed identity cases stopped: %s" % e)
+    try:
+        c18 = importlib.import_module("harness.props.c18")
+        ns = c18.boot(ctx)
+        impl.cur = ("verit", None)
+        for k, (name, args, ths) in enumerate(identity_cases(impl)):
+            if name.startswith("verit_") and name in impl.theory.global_macros:
+                oracle.run_one(name, args, ths, {"kind": "directed", "family": "identity", "index": k}, "directed")
+                n += 1
+        for k, (name, args, ths) in enumerate(refl_context_cases()):
+            oracle.run_one(name, args, ths, {"kind": "directed", "family": "refl-contexts", "index": k}, "directed")
+            n += 1
+        for rule in sorted(c18.GEN):
+            G = c18.Univ(ns, fixed)
+            got = 0
+            for i in range(60):
+                if got >= 12:
+                    break
+                try:
+                    inst = c18.GEN[rule](G)
+                except Exception:  # noqa
+                    continue
+                if inst is None or getattr(inst, "kind", "correct") != "correct":
+                    continue
+                name, args, ths = c18.assemble(inst)
+                if name not in impl.theory.global_macros:
+                    continue
+                with contextlib.redirect_stdout(io.StringIO()):
+                    r = oracle.run_one(name, args, ths, {"kind": "directed", "rule": rule, "index": i}, "directed")
+                n += 1
+                if r is not None and r["eval"] == "ok":
+                    got += 1
+                for (vk, a2) in context_variants(args):
+                    with contextlib.redirect_stdout(io.StringIO()):
+                        oracle.run_one(name, a2, ths, {"kind": "directed", "rule": rule, "index": i, "variant": vk}, "directed")
+                    n += 1
+    except Exception as e:  # noqa
+        ctx.coverage["directed_verit"] = "unavailable: %s: %s" % (type(e).__name__, str(e)[:200])
+    ctx.log("directed sweep (seed-independent): %d inputs in %.1fs; findings so far: %d" % (n, time.time() - t0, len(oracle.found)))
+
+
 def run_generators(ctx, impl, oracle, mut):
     import time
     order = sorted(GEN_FAMILIES, key=lambda f: f[1])
@@ -2528,6 +2684,8 @@ def verit_stream(ctx, impl, oracle, mut):
                     continue
                 with contextlib.redirect_stdout(io.StringIO()):
                     oracle.run_one(name, args, prevs, {"kind": "verit-" + src, "rule": rule, "index": i}, src)
+                    for (vk, a2) in context_variants(args):
+                        oracle.run_one(name, a2, prevs, {"kind": "verit-" + src, "rule": rule, "index": i, "variant": vk}, "mutation")
                     if k == 0:                      # the generic mutator too (premise hypotheses, retyping, ...)
                         try:
                             m = mut.mutate(name, args, prevs)
@@ -2593,7 +2751,7 @@ MANIFEST = {
             "expansion branch: for every proof term whose nodes satisfy the constructor invariant the exported lines check, state exactly "
             "the root sequent (same conclusion, no added hypothesis) and cite only earlier lines / admissible lines (export_check, "
             "export_shared_sequent for every dictionary lookup that identifies only Thm.__eq__-equal sequents); for macros with the default "
-            "eval/expand and a parametric get_proof_term the checked expansion equals eval (default_eval_expand); export_dag_lines_unique: for derivations that do not repeat a sequent along a path every sequent is exported at most once. Per-macro theorems on the shared kernel model (15 primitive rules, C01 checker model runScriptAx): macro_eval_eq_expand_trivial, _intros (assumption premises), _apply_theorem (first-order monomorphic theorem, type-complete instantiation without remaining schematic variables): whenever the modelled eval reports th and the checker model accepts the modelled expansion script, the last theorem of the script is th; plus trivial_eval_spec / intros_eval_spec (no hypotheses added). The macro registry "
+            "eval/expand and a parametric get_proof_term the checked expansion equals eval (default_eval_expand, and default_eval_expand_bare_premise for a proof term that is a premise unchanged, which expand restates); export_dag_lines_unique: for derivations that do not repeat a sequent along a path every sequent is exported at most once. Per-macro theorems on the shared kernel model (15 primitive rules, C01 checker model runScriptAx): macro_eval_eq_expand_trivial, _intros (assumption premises), _apply_theorem (first-order monomorphic theorem, type-complete instantiation without remaining schematic variables): whenever the modelled eval reports th and the checker model accepts the modelled expansion script, the last theorem of the script is th; plus trivial_eval_spec / intros_eval_spec (no hypotheses added). The macro registry "
             "(level, eval/expand/get_proof_term overrides) is regenerated from the sources and the lists of eval-overriding and of trusted "
             "(level 0) macros are pinned by `decide`. Per-macro agreement of eval and expansion is NOT proved: it is validated on every run by "
             "the real checker (check_level=0) on inputs harvested from the stored library proofs (incl. the nested steps of expansions), "
@@ -2601,7 +2759,7 @@ MANIFEST = {
     "note": "Partial: the bodies of the 144 macros are not modelled; 107 of them override eval, so for these agreement is evidence per input "
             "(counts per macro in evidence: inputs / eval ok / expansion produced / compared / agree; macros never reached are listed). "
             "Besides eval = checked expansion the oracle requires that an expansion cites only the premises given to that call (or its own "
-            "earlier lines), has no gaps, and that a macro above the default trust level produces an expansion on at least one input on "
+            "earlier lines), has no gaps, that a proof term which is a cited premise unchanged can still be turned into proof lines (expansion-is-bare-premise), and that a macro above the default trust level produces an expansion on at least one of the DIRECTED (seed-independent: fixed random seed, run first) inputs on "
             "which its eval succeeds. The macro models are tied to logic/logic.py on harvested and generated invocations through the driver (model eval vs real eval, model script vs the real exported lines rule by rule, model script run by runScriptAx vs real eval); all other macros (and the quantifier / exists / higher-order / polymorphic cases of these three) are validated per run only. Model tied to kernel/proofterm.py by differential runs of the compiled driver on harvested and synthetic proof terms (line "
             "structure: ids, rules, citations, sequents; checker verdict with all macros evaluated) and on ItemID.can_depend_on. An input on "
             "which eval raises while an expansion exists is counted (no-evaluation), not a violation, for macros with their own eval. "
@@ -2643,6 +2801,22 @@ FINDINGS = [
     {"status": "fixed", "key": "intros:expansion-rejected:InvalidDerivationException", "commit": "aa633e8",
      "what": "intros args=[?m. n = 2 * m] prevs=[|- ?m. n = 2 * m, |- _VAR m, n = 2 * m |- n = 2 * m, |- (%m. n = 2 * m) n]: the nested "
              "apply_theorem exE step evaluates (premises matched up to beta) but its expansion raises, so the checker rejects the expansion of intros"},
+    {"status": "fixed", "key": "verit_bfun_elim:expansion-is-bare-premise", "commit": "fixes/C04-13-expand-bare-premise.patch",
+     "what": "verit_bfun_elim args=(!x. P x,) prevs=[|- !x. P x] (nothing to eliminate): eval reports |- !x. P x, get_proof_term returns the cited "
+             "premise unchanged, ProofTerm.export refuses it (export: atom); same for beta_norm on a beta-normal fact, apply_fact_for [] on a fact "
+             "without quantifiers, rewrite_goal / rewrite_goal_with_prev(_sym) when the rewritten goal is the premise itself"},
+    {"status": "fixed", "key": "verit_bfun_elim:expansion-never-produced", "commit": "fixes/C04-13-expand-bare-premise.patch",
+     "what": "seed-dependent form of the finding above (the rule is now judged on seed-independent directed inputs only)"},
+    {"status": "fixed", "key": "beta_norm:expansion-is-bare-premise", "commit": "fixes/C04-13-expand-bare-premise.patch",
+     "what": "beta_norm prevs=[|- P x]: eval reports |- P x, the expansion is the cited premise itself and cannot be exported"},
+    {"status": "fixed", "key": "apply_fact_for:expansion-is-bare-premise", "commit": "fixes/C04-13-expand-bare-premise.patch",
+     "what": "apply_fact_for [] prevs=[|- A]: as above"},
+    {"status": "fixed", "key": "rewrite_goal:expansion-is-bare-premise", "commit": "fixes/C04-13-expand-bare-premise.patch", "what": "as above"},
+    {"status": "fixed", "key": "rewrite_goal_with_prev:expansion-is-bare-premise", "commit": "fixes/C04-13-expand-bare-premise.patch", "what": "as above"},
+    {"status": "fixed", "key": "rewrite_goal_with_prev_sym:expansion-is-bare-premise", "commit": "fixes/C04-13-expand-bare-premise.patch", "what": "as above"},
+    {"status": "fixed", "key": "rewrite_goal:conclusion-differs:head", "commit": "fixes/C04-14-equal_elim-reflexive.patch",
+     "what": "rewrite_goal ('if_P', P) prevs=[|- false] (the theorem does not rewrite the goal): eval reports |- P, the proof term is the premise "
+             "|- false (ProofTerm.equal_elim skipped a reflexive equation without comparing statements); visible once C04-13 lets such a proof term be exported"},
     {"status": "fixed", "key": "verit_or:expansion-never-produced", "commit": "6f6fccd",
      "what": "verit_or args=(a, false) prevs=[|- a | false]: eval reports |- a | false but get_proof_term returns the cited premise itself, which "
              "ProofTerm.export refuses (export: atom): no expansion on any input on which eval succeeds"},
